@@ -38,7 +38,8 @@ type journalCase struct {
 func (j *journalCase) add(b *blockSpec) {
 	jb := journalBlock{TS: b.ts}
 	for _, s := range b.txs {
-		data, err := s.tx.(*pb.BxhTransaction).Marshal()
+		// pb.MarshalTx / UnmarshalTx carry the type flag (BitXHub or Ethereum format)
+		data, err := s.tx.MarshalWithFlag()
 		if err != nil {
 			panic(err)
 		}
@@ -54,11 +55,13 @@ func (jb *journalBlock) spec() *blockSpec {
 		if err != nil {
 			panic(err)
 		}
-		tx := &pb.BxhTransaction{}
-		if err := tx.Unmarshal(data); err != nil {
+		tx, err := pb.UnmarshalTx(data)
+		if err != nil {
 			panic(err)
 		}
-		tx.TransactionHash = tx.Hash()
+		if bt, ok := tx.(*pb.BxhTransaction); ok {
+			bt.TransactionHash = bt.Hash()
+		}
 		b.txs = append(b.txs, &txSpec{tx: tx, local: jt.Local, desc: jt.Desc})
 	}
 	return b
@@ -115,7 +118,7 @@ func c08Property(t *rapid.T) {
 	w := tpl.InstantiateWith("c08", opts)
 	defer w.N.Destroy()
 	g := newHistGen(t, w)
-	g.weights = append(g.weights, "malformed", "malformed", "xvm", "mutated", "mutated", "mutated", "mutated", "mutated", "mutated")
+	g.weights = append(g.weights, "malformed", "malformed", "xvm", "mutated", "mutated", "mutated", "mutated", "mutated", "mutated", "eth", "eth", "eth")
 	methods := contractMethods(w.N)
 	pools := defaultPools(w)
 	var ops []string
